@@ -191,6 +191,7 @@ structure Inv (R : Store → Store → Prop) (st st' : State) : Prop where
   syn : st'.syn = st.syn
   importEnd : st'.importEnd = st.importEnd
   store : R st.store st'.store
+  dir : st'.dir = st.dir
 
 /-- the hypotheses on `R` -/
 structure StoreRel (R : Store → Store → Prop) : Prop where
@@ -203,17 +204,17 @@ structure StoreRel (R : Store → Store → Prop) : Prop where
 variable {R : Store → Store → Prop}
 
 theorem Inv.refl (hR : StoreRel R) (st : State) : Inv R st st :=
-  ⟨rfl, fun _ _ h => h, fun _ _ h => h, rfl, rfl, rfl, rfl, hR.refl _⟩
+  ⟨rfl, fun _ _ h => h, fun _ _ h => h, rfl, rfl, rfl, rfl, hR.refl _, rfl⟩
 
 theorem Inv.trans (hR : StoreRel R) {a b c : State} (h1 : Inv R a b) (h2 : Inv R b c) : Inv R a c :=
   ⟨h2.inProgress.trans h1.inProgress, fun n d h => h2.instances n d (h1.instances n d h),
    fun n f h => h2.factories n f (h1.factories n f h), h2.files.trans h1.files,
    h2.env.trans h1.env, h2.syn.trans h1.syn, h2.importEnd.trans h1.importEnd,
-   hR.trans h1.store h2.store⟩
+   hR.trans h1.store h2.store, h2.dir.trans h1.dir⟩
 
 theorem Inv.store_step (st : State) {σ' : Store} (h : R st.store σ') :
     Inv R st { st with store := σ' } :=
-  ⟨rfl, fun _ _ h => h, fun _ _ h => h, rfl, rfl, rfl, rfl, h⟩
+  ⟨rfl, fun _ _ h => h, fun _ _ h => h, rfl, rfl, rfl, rfl, h, rfl⟩
 
 theorem foldl_define_rel (hR : StoreRel R) (ρ : Nat) (defs : List (String × Value)) (σ : Store) :
     R σ (defs.foldl (fun σ p => σ.define ρ p.1 p.2) σ) := by
@@ -263,7 +264,7 @@ theorem importSet_succ (hR : StoreRel R) {fuel} (ih : InvAt R fuel) {st s r st'}
     · cases h
       have i := ih.getLibrary (st := { st with inProgress := name :: st.inProgress }) (name := name)
         (loc := loc) (r := _) (st' := _) rfl
-      exact ⟨by simp [i.inProgress], i.instances, i.factories, i.files, i.env, i.syn, i.importEnd, i.store⟩
+      exact ⟨by simp [i.inProgress], i.instances, i.factories, i.files, i.env, i.syn, i.importEnd, i.store, i.dir⟩
   | _ =>
     rw [evalImportSet] at h
     split at h <;> rename_i he <;> cases h <;> exact ih.importSet he
@@ -274,7 +275,7 @@ def findFactory (st : State) (name : LibName) (loc : Loc) : Except SErr Factory 
   match libLookup st.factories name with
   | some f => (.ok f, st)
   | none =>
-    match st.files.lookup (libPath name) with
+    match st.files.lookup (fileKey st.dir (libPath name)) with
     | none => (.error (.libNotFound, loc), st)
     | some .unreadable => (.error (.io, none), st)
     | some (.text t) =>
@@ -321,7 +322,7 @@ theorem findFactory_inv (hR : StoreRel R) {st name loc r st'} (hnone : libLookup
     · cases h; exact ⟨Inv.refl hR _, hnone⟩
     · split at h
       · cases h
-        refine ⟨⟨rfl, fun _ _ h => h, ?_, rfl, rfl, rfl, rfl, hR.refl _⟩, hnone⟩
+        refine ⟨⟨rfl, fun _ _ h => h, ?_, rfl, rfl, rfl, rfl, hR.refl _, rfl⟩, hnone⟩
         intro n f' h'
         exact libLookup_libInsert_of_some _ hf h'
       · cases h; exact ⟨Inv.refl hR _, hnone⟩
@@ -332,7 +333,7 @@ theorem cacheInstance_inv {st name res r st'}
   unfold cacheInstance at h
   split at h
   · cases h
-    refine ⟨i.inProgress, ?_, i.factories, i.files, i.env, i.syn, i.importEnd, i.store⟩
+    refine ⟨i.inProgress, ?_, i.factories, i.files, i.env, i.syn, i.importEnd, i.store, i.dir⟩
     intro n d hn
     have hne : n ≠ name := by rintro rfl; simp [hnone] at hn
     simpa [libLookup_libInsert_ne _ _ hne] using i.instances n d hn
